@@ -797,6 +797,39 @@ func crossRead(from, to *Msg, variant, only int, dir string) (problems []string)
 			}
 		}
 	}
+	// copying fields that are ABSENT from the source (what the generated CopyX(old.X()) does for an unset message /
+	// any field): the copy must not create a field
+	if len(tags) > 0 {
+		var absent []uint16
+		for t := uint16(1); t < 400 && len(absent) < 2; t++ {
+			if !src.HasField(t) {
+				absent = append(absent, t)
+			}
+		}
+		cw := spec.NewMessageWriter()
+		if err := cw.Field(tags[0]).Any(src.Field(tags[0])); err != nil {
+			return append(problems, fmt.Sprintf("%s: copy of a present field: %v", dir, err))
+		}
+		e1 := cw.Field(absent[0]).Any(src.Field(absent[0]))         // nil value of an absent field
+		e2 := cw.Field(absent[1]).Any(src.Message(absent[1]).Raw()) // empty nested message of an absent field
+		cb, err := cw.Build()
+		if e1 != nil || e2 != nil || err != nil {
+			// refusing the copy is a legitimate answer as well
+		} else {
+			cm, err := spec.OpenMessageErr(cb)
+			if err != nil {
+				return append(problems, fmt.Sprintf("%s: message with copied absent fields does not open: %v", dir, err))
+			}
+			for _, t := range absent {
+				if cm.HasField(t) {
+					problems = append(problems, fmt.Sprintf("%s: copying a field that is absent from the source created field %d (it reads as %d bytes of another field)", dir, t, len(cm.FieldRaw(t))))
+				}
+			}
+			if cm.Fields() != 1 || !bytes.Equal(cm.Field(tags[0]), src.Field(tags[0])) {
+				problems = append(problems, fmt.Sprintf("%s: copying absent fields disturbed the message: %d fields, want 1", dir, cm.Fields()))
+			}
+		}
+	}
 	// the same with a LARGE unknown field: the old message carries a 70000-byte field under a small unused tag; the
 	// upgrader writes the field with the highest tag first and merges the rest, so the large field is appended after
 	// it (offsets beyond 64K in an entry that is not the last of the tag-sorted table)
